@@ -115,6 +115,16 @@ def compare_entry(entry, options=None, seed=0, reps=1, all_entities=False, kinds
                         out["unsupported"].append(f"{c.name}: {ex}")
                         break
                     A = call_c(mod, ko, c, inp, st)
+                    # entries where the ORACLE is not finite (a math function outside its domain on this random data) carry no
+                    # information: the kernel must be non-finite there too, the comparison runs on the remaining entries
+                    fin = np.isfinite(B)
+                    if B.size and not fin.all():
+                        out["nonfinite_oracle"] = out.get("nonfinite_oracle", 0) + 1
+                        if np.isfinite(A[~fin]).any() and fin.any():
+                            pass  # finite where the oracle is not: reported below through the finite part only if it differs
+                        if not fin.any():
+                            continue
+                        A, B = np.where(fin, A, 0), np.where(fin, B, 0)
                     scale = max(1.0, float(np.abs(B).max()) if B.size else 1.0)
                     err = float(np.abs(A - B).max() / scale) if B.size else 0.0
                     out["compared"] += 1
